@@ -172,3 +172,23 @@ func HoldsAt(b *ssa.BasicBlock, v ssa.Value, want bool) bool {
 	}
 	return false
 }
+
+// FactsOnEdge returns the facts known when edge e is traversed.
+func FactsOnEdge(e Edge) []Fact {
+	out := FactsAt(e.From)
+	if ifi, ok := e.From.Instrs[len(e.From.Instrs)-1].(*ssa.If); ok && e.From.Succs[0] != e.From.Succs[1] {
+		out = append(out, normFact(ifi.Cond, e.From.Succs[0] == e.To, ifi))
+	}
+	return out
+}
+
+// CmpsOnEdge returns the comparisons known when edge e is traversed.
+func CmpsOnEdge(e Edge) []Cmp {
+	var out []Cmp
+	for _, f := range FactsOnEdge(e) {
+		if c, ok := f.AsCmp(); ok {
+			out = append(out, c)
+		}
+	}
+	return out
+}
